@@ -42,89 +42,77 @@ Theorem C13_consumed_bound : forall bytes s,
 Proof. intros bytes s. split; [apply consumed_bound | apply no_out_of_fuel]. Qed.
 Print Assumptions C13_consumed_bound.
 
-(* ---- no panic: the full statement, false of the faithful model today ---------------------------------------- *)
-Definition C13_no_panic_full : Prop :=
-  forall s bytes, (forall p, deliver_outcome s bytes <> Panic p) /\
-                  0 <= r_consumed (handle_events s bytes) <= zlen bytes.
+(* ---- no panic: the full statement ------------------------------------------------------------------------------ *)
+(* For every session abstraction and every byte string: neither handleEvents nor a lambda it posted panics, and
+   the number of bytes reported consumed lies inside the buffer.  (Before the `fix:` commits of /repo this statement
+   was refuted by four inputs; they are the regression examples below and the first cases of every harness run.) *)
+Theorem C13_no_panic_full : forall s bytes,
+  (forall p, deliver_outcome s bytes <> Panic p) /\
+  0 <= r_consumed (handle_events s bytes) <= zlen bytes.
+Proof. exact no_panic. Qed.
+Print Assumptions C13_no_panic_full.
+
+(* ... and hence for every way of cutting the bytes into reads ([feed] stops at the first error) *)
+Theorem C13_no_panic_chunked : forall s bytes chunks p, concat chunks = bytes ->
+  f_outcome (feed s [] chunks) <> Panic p.
+Proof.
+  intros s bytes chunks p H. destruct (chunking s bytes chunks H) as (-> & _).
+  apply handle_events_no_panic.
+Qed.
+Print Assumptions C13_no_panic_chunked.
 
 Definition hdr (len ver typ : Z) : list Z :=
   [(len / 16777216) mod 256; (len / 65536) mod 256; (len / 256) mod 256; len mod 256;
    c_magicNumber / 256; c_magicNumber mod 256; ver; typ].
 Definition plain (client listener manager : bool) : sess :=
   {| s_client := client; s_has_listener := listener; s_has_manager := manager; s_epoch := 7;
-     s_streams := []; s_queue := [] |}.
+     s_lstate := c_hotRestartState; s_state := c_hotRestartState; s_streams := []; s_queue := [] |}.
 
-(* the four witnesses (each reproduced on the real code by go/harness/c13_events_test.go) *)
-Example C13_witness_fallback_makeslice :      (* typeFallbackData, Length 0 < headerSize *)
-  deliver_outcome (plain false true false) (hdr 0 2 c_typeFallbackData) = Panic PMakeslice.
+(* regression examples: the four former panic witnesses now end the session with ErrInvalidMsgType *)
+Example C13_regression_fallback_length_0 :      (* typeFallbackData, Length 0 < headerSize: was makeslice panic *)
+  deliver_outcome (plain false true false) (hdr 0 2 c_typeFallbackData) = Err EInvalidMsgType.
 Proof. vm_compute. reflexivity. Qed.
-Example C13_witness_fallback_bounds :         (* typeFallbackData, Length 12: headerSize <= Length < 16, payload present *)
-  deliver_outcome (plain false true false) (hdr 12 2 c_typeFallbackData ++ [0; 0; 0; 1]) = Panic PSliceBounds.
+Example C13_regression_fallback_length_12 :     (* headerSize <= Length < 16, payload present: was slice bounds panic *)
+  deliver_outcome (plain false true false) (hdr 12 2 c_typeFallbackData ++ [0; 0; 0; 1]) = Err EInvalidMsgType.
 Proof. vm_compute. reflexivity. Qed.
-Example C13_witness_ack_without_listener :    (* typeHotRestartAck received by a session without listener *)
-  deliver_outcome (plain true false true) (hdr 16 2 c_typeHotRestartAck ++ [0; 0; 0; 0; 0; 0; 0; 7]) = Panic PNilListener.
+Example C13_regression_ack_without_listener :   (* typeHotRestartAck on a session without listener: was nil dereference *)
+  deliver_outcome (plain true false true) (hdr 16 2 c_typeHotRestartAck ++ [0; 0; 0; 0; 0; 0; 0; 7]) = Err EInvalidMsgType.
 Proof. vm_compute. reflexivity. Qed.
-Example C13_witness_restart_without_manager : (* typeHotRestart received by a session without manager: posted lambda *)
-  deliver_outcome (plain false true false) (hdr 16 2 c_typeHotRestart ++ [0; 0; 0; 0; 0; 0; 0; 7]) = Panic PNilManager.
-Proof. vm_compute. reflexivity. Qed.
-
-Theorem C13_refuted : ~ C13_no_panic_full.
-Proof.
-  intros H. destruct (H (plain false true false) (hdr 0 2 c_typeFallbackData)) as [NP _].
-  apply (NP PMakeslice). exact C13_witness_fallback_makeslice.
-Qed.
-Print Assumptions C13_refuted.
-
-(* the strongest true statement: no panic as long as
-   (1) every typeFallbackData event handed to its handler has Length >= headerSize + 8,
-   (2) typeHotRestartAck is only handed to a session that has a listener,
-   (3) typeHotRestart is only handed to a session that has a manager.
-   Each hypothesis corresponds to one missing check in /repo; when a `fix:` adds the check the model's Panic
-   branch becomes an error return and the hypothesis disappears. *)
-Theorem C13_partial_no_panic : forall s bytes,
-  (forall len, In (c_typeFallbackData, len) (dispatched_events s bytes) -> c_headerSize + fallbackDataHeader <= len) ->
-  ((exists len, In (c_typeHotRestartAck, len) (dispatched_events s bytes)) -> s_has_listener s = true) ->
-  ((exists len, In (c_typeHotRestart, len) (dispatched_events s bytes)) -> s_has_manager s = true) ->
-  forall p, deliver_outcome s bytes <> Panic p.
-Proof. exact partial_no_panic. Qed.
-Print Assumptions C13_partial_no_panic.
-
-(* and the hypotheses are exact: every panic inside handleEvents is one of the three, at a dispatched event *)
-Theorem C13_panic_characterised : forall bytes s p,
-  r_outcome (handle_events s bytes) = Panic p ->
-  (p = PMakeslice /\ exists len, In (c_typeFallbackData, len) (dispatched_events s bytes) /\ len < c_headerSize) \/
-  (p = PSliceBounds /\ exists len, In (c_typeFallbackData, len) (dispatched_events s bytes)
-                                   /\ c_headerSize <= len < c_headerSize + fallbackDataHeader) \/
-  (p = PNilListener /\ s_has_listener s = false /\ exists len, In (c_typeHotRestartAck, len) (dispatched_events s bytes)).
-Proof. exact panic_characterised. Qed.
-Print Assumptions C13_panic_characterised.
+Example C13_regression_restart_without_manager : (* typeHotRestart on a session without manager: was nil dereference in the lambda *)
+  deliver_outcome (plain false true false) (hdr 16 2 c_typeHotRestart ++ [0; 0; 0; 0; 0; 0; 0; 7]) = Err EInvalidMsgType
+  /\ r_actions (handle_events (plain false true false) (hdr 16 2 c_typeHotRestart ++ [0; 0; 0; 0; 0; 0; 0; 7])) = [].
+Proof. vm_compute. split; reflexivity. Qed.
 
 (* ---- handshake phase (server side readers) ------------------------------------------------------------------- *)
-Definition C13_handshake_no_panic_full : Prop := forall input, hs_out (server_handshake input) <> HsPanic.
+Theorem C13_handshake_no_panic_full : forall input, hs_out (server_handshake input) <> HsPanic.
+Proof. exact handshake_no_panic. Qed.
+Print Assumptions C13_handshake_no_panic_full.
 
-Example C13_witness_short_metadata :          (* V2 ShareMemoryByFilePath with an empty body: body[0:2] *)
-  hs_out (server_handshake (hdr 8 c_protoVersion c_typeShareMemoryByFilePath)) = HsPanic.
+(* extractShmMetadata accepts exactly the bodies whose three length checks [meta_wf] pass and returns an error for
+   every other body *)
+Theorem C13_metadata_spec : forall body,
+  (meta_wf body = true -> exists q b, extract_shm_metadata body = MetaOk q b) /\
+  (meta_wf body = false -> extract_shm_metadata body = MetaErr).
+Proof. exact extract_spec. Qed.
+Print Assumptions C13_metadata_spec.
+
+(* the metadata body is never sized by a wrapped uint32: it has exactly Length - headerSize bytes *)
+Theorem C13_body_length_no_wrap : forall h input body,
+  read_body h input = BodyOk body -> zlen body = hdr_length h - c_headerSize.
+Proof. exact read_body_no_wrap. Qed.
+Print Assumptions C13_body_length_no_wrap.
+
+Example C13_regression_short_metadata :         (* V2 ShareMemoryByFilePath with an empty body: was body[0:2] panic *)
+  hs_out (server_handshake (hdr 8 c_initializerVersion_2 c_typeShareMemoryByFilePath)) = HsErr.
 Proof. vm_compute. reflexivity. Qed.
-
-Theorem C13_handshake_refuted : ~ C13_handshake_no_panic_full.
-Proof. intros H. apply (H (hdr 8 c_protoVersion c_typeShareMemoryByFilePath)). exact C13_witness_short_metadata. Qed.
-Print Assumptions C13_handshake_refuted.
-
-(* no panic when the metadata body handed to extractShmMetadata passes the length checks [meta_wf] (the guard
-   the code lacks); exact: extractShmMetadata panics iff meta_wf is false *)
-Theorem C13_handshake_partial_no_panic : forall input,
-  (forall body, hs_body (server_handshake input) = Some body -> meta_wf body = true) ->
-  hs_out (server_handshake input) <> HsPanic.
-Proof. exact handshake_partial_no_panic. Qed.
-Print Assumptions C13_handshake_partial_no_panic.
-
-Theorem C13_metadata_panic_iff : forall body, extract_shm_metadata body = MetaPanic <-> meta_wf body = false.
-Proof. exact extract_panic_iff. Qed.
-Print Assumptions C13_metadata_panic_iff.
+Example C13_regression_length_below_header :    (* Length 3 < headerSize: was a ~4 GiB allocation request *)
+  hs_out (server_handshake (hdr 3 c_initializerVersion_2 c_typeShareMemoryByFilePath)) = HsErr.
+Proof. vm_compute. reflexivity. Qed.
 
 (* ---- non-vacuity: a server session, three events cut in the middle of headers and payloads ------------------- *)
 Example C13_example_run :
   let s := {| s_client := false; s_has_listener := true; s_has_manager := false; s_epoch := 7;
+              s_lstate := c_hotRestartState; s_state := c_hotRestartState;
               s_streams := [(5, c_streamOpened)]; s_queue := [{| qe_id := 9; qe_status := 0; qe_data := [1; 2] |}] |} in
   let bytes := hdr 19 2 c_typeFallbackData ++ [0; 0; 0; 3; 0; 0; 0; 0] ++ [10; 11; 12]     (* new stream 3, 3 bytes *)
                ++ hdr 8 2 c_typePolling                                                       (* drains the queue *)
@@ -136,5 +124,6 @@ Example C13_example_run :
   f_actions f = [AFallback 3 0 3; ANewStream 3; AData 3 true [10; 11; 12]; APoll; ANewStream 9; AData 9 false [1; 2];
                  AHalfClose 5; AHotRestartAck 7 true] /\
   f_pending f = [0; 0; 0] /\
-  s_streams (f_sess f) = [(5, c_streamHalfClosed); (3, c_streamOpened); (9, c_streamOpened)].
+  s_streams (f_sess f) = [(5, c_streamHalfClosed); (3, c_streamOpened); (9, c_streamOpened)] /\
+  s_state (f_sess f) = c_hotRestartDoneState.
 Proof. vm_compute. repeat split. Qed.
